@@ -303,6 +303,35 @@ impl Prop for C06Prop {
         out
     }
     fn generate(&self, rng: &mut Rng, _tier: Tier) -> Case {
+        if rng.chance(1, 8) {
+            // TWO statements decided one after the other on the same thread: B, and before it A = B with one
+            // `atom op atom` span merged into a single value with blanks (`false and true` as ONE atom is a
+            // text, hence truthy) — the two read the same when joined by blanks and mean different things
+            for _ in 0..20 {
+                let c = gen_conj(rng, 2);
+                let mut b = vec![];
+                tok_conj(&c, &mut b);
+                let plain = |t: &String| !["and", "or", "(", ")"].contains(&t.as_str()) && !t.starts_with('@');
+                let spans: Vec<usize> = (0..b.len().saturating_sub(2)).filter(|&i| plain(&b[i]) && (b[i + 1] == "and" || b[i + 1] == "or") && plain(&b[i + 2])).collect();
+                if spans.is_empty() || b.len() < 5 {
+                    continue;
+                }
+                let i = *rng.pick(&spans);
+                let merged = format!("{} {} {}", b[i], b[i + 1], b[i + 2]);
+                let mut a: Vec<String> = b[..i].to_vec();
+                a.push(merged);
+                a.extend_from_slice(&b[i + 3..]);
+                let sym = |t: &String| -> &'static str { match t.as_str() { "and" => "and", "or" => "or", "(" => "(", ")" => ")", _ => if FALSY.contains(&t.as_str()) { "F" } else { "T" } } };
+                let ea = parse_eval(&a.iter().map(sym).collect::<Vec<_>>());
+                let eb = parse_eval(&b.iter().map(sym).collect::<Vec<_>>());
+                if let (Some(ea), Some(eb)) = (ea, eb) {
+                    let consumer = rng.pick_s(&CONSUMERS);
+                    let swap = rng.chance(1, 2);
+                    let (x, y, ex, ey) = if swap { (&b, &a, eb, ea) } else { (&a, &b, ea, eb) };
+                    return Case { req: format!("cond2 {} {} {} exp={}{}", consumer, enc_list(x), enc_list(y), ex as u8, ey as u8), in_domain: true, nontrivial: true, tags: vec![consumer, "two-statements-same-thread"] };
+                }
+            }
+        }
         let c = gen_conj(rng, 3);
         let mut toks = vec![];
         tok_conj(&c, &mut toks);
@@ -311,10 +340,17 @@ impl Prop for C06Prop {
     }
     fn run_impl(&self, req: &str, _m: &str) -> String {
         let t: Vec<&str> = req.split(' ').collect();
+        if t[0] == "cond2" {
+            return format!("{} {}", decide(t[1], &dec_list(t[2]).unwrap()), decide(t[1], &dec_list(t[3]).unwrap()));
+        }
         decide(t[1], &dec_list(t[2]).unwrap())
     }
     fn relation(&self, req: &str, _m: &str, imp: &str) -> Option<bool> {
         let t: Vec<&str> = req.split(' ').collect();
+        if t[0] == "cond2" {
+            let e = t[4].strip_prefix("exp=")?;
+            return Some(imp == format!("ok {} ok {}", &e[0..1], &e[1..2]));
+        }
         match t[3] {
             "exp=1" => Some(imp == "ok 1"),
             "exp=0" => Some(imp == "ok 0"),
@@ -323,6 +359,9 @@ impl Prop for C06Prop {
     }
     fn shrink(&self, req: &str) -> Vec<String> {
         let t: Vec<&str> = req.split(' ').collect();
+        if t[0] == "cond2" {
+            return vec![];
+        }
         let toks = dec_list(t[2]).unwrap();
         let mut out = vec![];
         for i in 0..toks.len() {
@@ -338,6 +377,9 @@ impl Prop for C06Prop {
     }
     fn describe(&self, req: &str) -> String {
         let t: Vec<&str> = req.split(' ').collect();
+        if t[0] == "cond2" {
+            return format!("{} {:?} then {:?} on the same thread (expected {})", t[1], dec_list(t[2]).unwrap(), dec_list(t[3]).unwrap(), t[4]);
+        }
         format!("{} {:?} (expected {})", t[1], dec_list(t[2]).unwrap(), t[3])
     }
 }
